@@ -204,3 +204,75 @@ package expr
 //@   ensures remain: result0 == b[e.Width:] && result1 == x[e.Width:] && result2 == y[e.Width:]
 //@   ensures set_side_is_saved: old(i64of(u64At(x, 0)) > 0 || i64of(u64At(y, 0)) > 0) ==> captured(saved)
 //@   ensures both_unset_untouched: !old(i64of(u64At(x, 0)) > 0 || i64of(u64At(y, 0)) > 0) ==> !captured(saved)
+
+// C06: which stored fields feed a re-aggregated IF field. If the query's IF expression itself is one of the table's
+// stored fields (same text), it is fed from that field ONLY - every other stored field gets no sub-merger - so a
+// sibling SUM(a) is never added into IF(c, SUM(a)) a second time.
+//@ interface Expr.String
+//@   params this
+//@   pure
+//@ func (*ifExpr).String
+//@   pure
+
+//@ func (*ifExpr).SubMergers
+//@   requires e != nil
+//@   modifies *
+//@   ensures exact_match_only: (exists i in 0..len(subs) :: old(subs[i]).String() == e.String()) ==> len(result) == len(subs) && (forall i in 0..len(subs) :: (old(subs[i]).String() == e.String()) == (result[i] != nil))
+//@   loop 0 invariant shape: len(sms) == len(subs) && fresh(sms) && obj(sms) != 0 && 0 <= $i && $i <= len(subs)
+//@   loop 0 invariant subs_same: forall j in 0..len(subs) :: subs[j] == old(subs[j])
+//@   loop 0 invariant done: forall j in 0..$i :: (old(subs[j]).String() == e.String()) == (sms[j] != nil)
+//@   loop 0 invariant rest_nil: forall j in $i..len(subs) :: sms[j] == nil
+//@   loop 0 invariant matched_iff: matched == (exists j in 0..$i :: old(subs[j]).String() == e.String())
+
+// ---- the remaining accumulators: buffer discipline of the Expr contract (each hands on exactly the buffer after its own
+// EncodedWidth bytes and writes nothing outside them); wrappers delegate to what they wrap, leaves have no state ----
+//@ func (*bounded).Update
+//@   requires e != nil && e.wrapped != nil && len(b) >= e.wrapped.EncodedWidth()
+//@   modifies b[0:e.wrapped.EncodedWidth()]
+//@   ensures remain: result0 == b[e.wrapped.EncodedWidth():]
+//@ func (*bounded).Merge
+//@   requires e != nil && e.wrapped != nil && len(b) >= e.wrapped.EncodedWidth() && len(x) >= e.wrapped.EncodedWidth() && len(y) >= e.wrapped.EncodedWidth()
+//@   modifies b[0:e.wrapped.EncodedWidth()]
+//@   ensures remain: result0 == b[e.wrapped.EncodedWidth():] && result1 == x[e.wrapped.EncodedWidth():] && result2 == y[e.wrapped.EncodedWidth():]
+//@ func (*bounded).Get
+//@   requires e != nil && e.wrapped != nil && len(b) >= e.wrapped.EncodedWidth()
+//@   modifies nothing
+//@   ensures remain: result2 == b[e.wrapped.EncodedWidth():]
+
+//@ func (*shift).Update
+//@   requires e != nil && e.Wrapped != nil && e.Width == e.Wrapped.EncodedWidth() && len(b) >= e.Width
+//@   modifies b[0:e.Width]
+//@   ensures remain: result0 == b[e.Width:]
+//@ func (*shift).Merge
+//@   requires e != nil && e.Wrapped != nil && e.Width == e.Wrapped.EncodedWidth() && len(b) >= e.Width && len(x) >= e.Width && len(y) >= e.Width
+//@   modifies b[0:e.Width]
+//@   ensures remain: result0 == b[e.Width:] && result1 == x[e.Width:] && result2 == y[e.Width:]
+
+//@ func (*unaryMathExpr).Update
+//@   requires e != nil && e.Wrapped != nil && e.Width == e.Wrapped.EncodedWidth() && len(b) >= e.Width
+//@   modifies b[0:e.Width]
+//@   ensures remain: result0 == b[e.Width:]
+//@ func (*unaryMathExpr).Merge
+//@   requires e != nil && e.Wrapped != nil && e.Width == e.Wrapped.EncodedWidth() && len(b) >= e.Width && len(x) >= e.Width && len(y) >= e.Width
+//@   modifies b[0:e.Width]
+//@   ensures remain: result0 == b[e.Width:] && result1 == x[e.Width:] && result2 == y[e.Width:]
+
+//@ func (*constant).Update
+//@   modifies nothing
+//@   ensures remain: result0 == b && result2 == false
+//@ func (*constant).Merge
+//@   modifies nothing
+//@   ensures remain: result0 == b && result1 == x && result2 == y
+//@ func (*field).Update
+//@   modifies nothing
+//@   ensures remain: result0 == b
+//@ func (*field).Merge
+//@   modifies nothing
+//@   ensures remain: result0 == b && result1 == x && result2 == y
+
+//@ func (*bounded).test
+//@   modifies nothing
+// Params.Get reads one value of the inbound point; it writes nothing.
+//@ interface Params.Get
+//@   params this, name
+//@   modifies nothing
